@@ -3,6 +3,7 @@ import UralModel.Lemmas.QuoteIdem
 import UralModel.Lemmas.QuoteUpper
 import UralModel.Lemmas.QuoteControl
 import UralModel.Lemmas.QuoteSplit
+import UralModel.Lemmas.QuotePost
 import UralModel.Gen.QuoteTables
 import UralModel.Model.Canonicalize
 /-!
@@ -27,9 +28,23 @@ theorem tables_path_delims :
 theorem tables_auth_delims :
     ∀ b ∈ ([0x40, 0x3A, 0x2F, 0x3F, 0x23] : List UInt8), b ∈ Gen.Quote.unsafeForAuthItem := by decide
 
-/-- `& = #` delimit a query item -/
+/-- `& = #` delimit a query item, and `+` has a meaning of its own there (a space; `%2B` is a
+plus sign: FX-C01-PLUS) -/
 theorem tables_query_delims :
-    ∀ b ∈ ([0x26, 0x3D, 0x23] : List UInt8), b ∈ Gen.Quote.unsafeForQueryItem := by decide
+    ∀ b ∈ ([0x26, 0x3D, 0x23, 0x2B] : List UInt8), b ∈ Gen.Quote.unsafeForQueryItem := by decide
+
+/-- **table obligation** (the model describes the code): the model's `quoteSafeQ` — what
+`safely_quote(item, safe="/+")` leaves alone — is the set of ASCII characters the real
+`safely_quote_qsl` leaves alone in a key and in a value (probed on the function, every ASCII
+code point; `+` is in it), a stray `%` is escaped, existing escapes are kept, a missing value
+stays missing, every probed non-ASCII code point becomes the escapes of its UTF-8 bytes -/
+theorem tables_qsl_safe :
+    (∀ n, n < 0x80 → n ≠ 0x25 →
+      quoteSafeQ (Char.ofNat n) = Gen.Quote.qslQuoteSafeKey.contains n ∧
+      quoteSafeQ (Char.ofNat n) = Gen.Quote.qslQuoteSafeValue.contains n) ∧
+    quoteSafeQ '%' = false ∧ quoteSafeQ '+' = true ∧ Gen.Quote.qslQuoteShape = true ∧
+    Gen.Quote.qslQuoteEscapesNonAscii = true := by
+  refine ⟨by decide +kernel, by decide, by decide, by decide, by decide⟩
 
 /-- the four functions are `partial(unquote, only_printable=True, normalize_space=True,
 lossless=True, unsafe=UNSAFE_FOR_<component>)` and nothing else -/
@@ -157,6 +172,24 @@ theorem unquote_delimiters (U : List UInt8) (hU : (0x25 : UInt8) ∈ U) (d : Cha
     (hd : d.toNat < 0x80) (hsp : d ≠ ' ') (hdU : UInt8.ofNat d.toNat ∈ U) (s : Str) :
     (tokens (safelyUnquote U s)).count (.raw d) = (tokens s).count (.raw d) := by
   rw [(unquote_tokens U hU s).1, count_unquoteToks U d hd hsp hdU, count_escapeRaw d hd]
+
+/-- **positional form of the delimiter clause**: around a raw occurrence of a character `d`
+that can neither start nor continue an escape (not `%`, not a hex digit: every delimiter), is
+not the space and is not one `NON_PRINTABLE_RE` matches, a safe unquoter works on what precedes
+and on what follows, and leaves `d` where it is -/
+theorem unquote_delimiter_positional (U : List UInt8) (d : Char) (hd : Sep d) (hsp : d ≠ ' ')
+    (hlt : d.toNat < 0x80) (a b : Str) :
+    safelyUnquote U (a ++ d :: b) = safelyUnquote U a ++ d :: safelyUnquote U b :=
+  safelyUnquote_append_sep U hd hsp (staysEscaped_of_lt hlt) a b
+
+/-- … and when `d` is a byte of the unsafe set, no piece acquires a new raw `d`: cutting the
+output at `d` gives the unquoted pieces of the input cut at `d` — the raw `d` of the output are
+exactly those of the input, in the same order, with the same (unquoted) text between them -/
+theorem unquote_split_delimiter (U : List UInt8) (d : Char) (hd : Sep d) (hsp : d ≠ ' ')
+    (hlt : d.toNat < 0x80) (hdU : UInt8.ofNat d.toNat ∈ U) (s : Str) :
+    splitOn (safelyUnquote U s) d = (splitOn s d).map (safelyUnquote U) ∧
+    (d ∉ s → d ∉ safelyUnquote U s) :=
+  ⟨splitOn_safelyUnquote U hd hsp hlt hdU s, not_mem_safelyUnquote U hd hlt hdU s⟩
 
 /-- C0 / DEL / C1 control characters -/
 def isControl (c : Char) : Prop := c.toNat < 0x20 ∨ (0x7f ≤ c.toNat ∧ c.toNat ≤ 0x9f)
@@ -723,8 +756,9 @@ theorem api_unquote_contract (U : List UInt8) (h : U ∈ apiTables) (s : Str) :
     upper_commutes_unquote U hU s, fun b hb hsp => unquote_delimiters_table U hU hA b hb hsp s⟩
 
 /-- the delimiters of each component, by name (the lists of the table obligations
-`tables_*_delims`): `@ : / ? #` for a userinfo item, `/ ? #` for a path, `& = #` for a query
-item stay raw where raw and escaped where escaped (a fragment has no delimiter of its own;
+`tables_*_delims`): `@ : / ? #` for a userinfo item, `/ ? #` for a path, `& = #` and `+` for a
+query item stay raw where raw and escaped where escaped (counting form; the positional form is
+`api_delimiters_positional`; a fragment has no delimiter of its own;
 `unquote_delimiters_table` covers every further byte of each table, `[ ]` of the userinfo
 table included) -/
 theorem api_delimiters (s : Str) :
@@ -732,7 +766,7 @@ theorem api_delimiters (s : Str) :
       (tokens (safelyUnquote Gen.Quote.unsafeForAuthItem s)).count (.raw d) = (tokens s).count (.raw d)) ∧
     (∀ d ∈ ['/', '?', '#'],
       (tokens (safelyUnquote Gen.Quote.unsafeForPath s)).count (.raw d) = (tokens s).count (.raw d)) ∧
-    (∀ d ∈ ['&', '=', '#'],
+    (∀ d ∈ ['&', '=', '#', '+'],
       (tokens (safelyUnquote Gen.Quote.unsafeForQueryItem s)).count (.raw d) = (tokens s).count (.raw d)) := by
   have key : ∀ (U : List UInt8), (0x25 : UInt8) ∈ U → ∀ ds : List Char,
       (∀ d ∈ ds, d.toNat < 0x80 ∧ d ≠ ' ' ∧ UInt8.ofNat d.toNat ∈ U) →
@@ -742,6 +776,50 @@ theorem api_delimiters (s : Str) :
     exact unquote_delimiters U hU d h1 h2 h3 s
   obtain ⟨p1, p2, p3, _⟩ := tables_percent_unsafe
   exact ⟨key _ p1 _ (by decide), key _ p2 _ (by decide), key _ p3 _ (by decide)⟩
+
+/-- the named delimiters, **positional form**: each function, applied to a string cut at the
+raw occurrences of one of its delimiters, gives the function applied to the pieces, cut at the
+same delimiter -/
+theorem api_delimiters_positional (s : Str) :
+    (∀ d ∈ ['@', ':', '/', '?', '#', '[', ']'],
+      splitOn (safelyUnquote Gen.Quote.unsafeForAuthItem s) d =
+        (splitOn s d).map (safelyUnquote Gen.Quote.unsafeForAuthItem)) ∧
+    (∀ d ∈ ['/', '?', '#'],
+      splitOn (safelyUnquote Gen.Quote.unsafeForPath s) d =
+        (splitOn s d).map (safelyUnquote Gen.Quote.unsafeForPath)) ∧
+    (∀ d ∈ ['&', '=', '#', '+'],
+      splitOn (safelyUnquote Gen.Quote.unsafeForQueryItem s) d =
+        (splitOn s d).map (safelyUnquote Gen.Quote.unsafeForQueryItem)) := by
+  have key : ∀ (U : List UInt8) (ds : List Char),
+      (∀ d ∈ ds, Sep d ∧ d ≠ ' ' ∧ d.toNat < 0x80 ∧ UInt8.ofNat d.toNat ∈ U) →
+      ∀ d ∈ ds, splitOn (safelyUnquote U s) d = (splitOn s d).map (safelyUnquote U) := by
+    intro U ds hds d hd
+    obtain ⟨h1, h2, h3, h4⟩ := hds d hd
+    exact splitOn_safelyUnquote U h1 h2 h3 h4 s
+  refine ⟨key _ _ ?_, key _ _ ?_, key _ _ ?_⟩ <;>
+  · intro d hd
+    simp only [List.mem_cons, List.not_mem_nil, or_false] at hd
+    rcases hd with rfl | rfl | rfl | rfl | rfl | rfl | rfl <;>
+      exact ⟨⟨by decide, by decide⟩, by decide, by decide, by decide⟩
+
+/-- **the model follows the order of the code**: each `safely_unquote_*` function computed the
+way `unquote` does — decode the escapes (`_unquote_impl` + `.decode("utf-8", "ural.requote")` per
+ASCII run), THEN `NON_PRINTABLE_RE.sub` on the decoded string, THEN `.replace(" ", "%20")`
+(`safelyUnquotePost`, `Model/Quote.lean`) — is the function `safelyUnquote` of the theorems
+above, which escapes the raw non-printable characters before decoding -/
+theorem api_code_order (U : List UInt8) (h : U ∈ apiTables) (s : Str) :
+    safelyUnquotePost U s = safelyUnquote U s :=
+  safelyUnquotePost_eq U (api_tables_ok U h).2 s
+
+/-- the case the equality is about: a raw no-break space between two halves of an escaped
+character, and in front of a continuation byte -/
+example :
+    decodeOnly Gen.Quote.unsafeForPath "%E2\u00a0%A0 %C2%A0%41".toList = "%E2\u00a0%A0 \u00a0A".toList ∧
+    safelyUnquotePost Gen.Quote.unsafeForPath "%E2\u00a0%A0 %C2%A0%41".toList =
+      "%E2%C2%A0%A0%20%C2%A0A".toList ∧
+    safelyUnquote Gen.Quote.unsafeForPath "%E2\u00a0%A0 %C2%A0%41".toList =
+      "%E2%C2%A0%A0%20%C2%A0A".toList := by
+  decide +kernel
 
 /-- the functions `canonicalize_url`'s model applies to the components are these four
 configurations (and `safely_quote`, `upper_quoted` themselves): the theorems above are about
